@@ -66,6 +66,18 @@ class State:
         g[log] = g.get(log, ()) + (item,)
         return self._clone(ghost=g)
 
+    def ghost_count(self, name, by):
+        """ghost counter `name` += by (a theory int term)"""
+        g = dict(self.ghost)
+        cur = g.get("#" + name)
+        g["#" + name] = ((cur[0] + by) if cur else by,)
+        return self._clone(ghost=g)
+
+    def ghost_set(self, name, term):
+        g = dict(self.ghost)
+        g["#" + name] = (term,)
+        return self._clone(ghost=g)
+
     def push_lock(self, lock):
         return self._clone(held=self.held + (lock,))
 
